@@ -48,6 +48,7 @@ import EsbuildModel.Impl.OutPathsDriver
 import EsbuildModel.Impl.StrLex
 import EsbuildModel.Impl.ResolveWalk
 import EsbuildModel.Impl.Glob
+import EsbuildModel.Impl.PartDepsDriver
 
 open EsbuildModel
 
@@ -106,6 +107,7 @@ def dispatch (kernel : String) (args : List String) : String :=
   | "strlex" => StrLex.driver args
   | "tspaths" => ResolveWalk.driver args
   | "glob" => Glob.driver args
+  | "partdeps" => PartDeps.driver args
   | _ => "bad-kernel"
 
 partial def loop (hin hout : IO.FS.Stream) : IO Unit := do
